@@ -5,6 +5,7 @@ import (
 	"go/constant"
 	"go/token"
 	"go/types"
+	"sort"
 	"strings"
 
 	"golang.org/x/tools/go/ssa"
@@ -463,19 +464,167 @@ type pathQuery struct {
 	deferWitness func(ssa.Instruction) bool
 	isEnd        func(ssa.Instruction) (string, bool)
 	blockEdge    func(from, to *ssa.BasicBlock) bool // optional: false = edge not followed
+	cur          *penv                                // the phi bindings of the path being explored (for the callbacks)
+}
+
+// onPath resolves v through the phis the explored path has bound: the value and the block
+// from which it was delivered (nil when v is not such a phi).
+func (q *pathQuery) onPath(v ssa.Value) (ssa.Value, *ssa.BasicBlock) {
+	var from *ssa.BasicBlock
+	for d := 0; d < 6; d++ {
+		ph, ok := resolveLocal(v).(*ssa.Phi)
+		if !ok {
+			break
+		}
+		i, bound := q.cur.get(ph)
+		if !bound || i >= len(ph.Edges) {
+			break
+		}
+		v, from = ph.Edges[i], ph.Block().Preds[i]
+	}
+	return v, from
 }
 
 type pqState struct {
 	b        *ssa.BasicBlock
 	deferred bool
 	pred     *ssa.BasicBlock
+	env      string
 }
 
 // decidedSucc: block b was entered from pred and ends in a branch on a phi of b (or on a
 // nil test of one): the incoming edge fixes the phi, hence the branch. This is the shape an
 // inlined helper leaves behind (`end: err := r; if err != nil {`).
 func decidedSucc(b, pred *ssa.BasicBlock) (*ssa.BasicBlock, bool) {
-	if pred == nil || len(b.Succs) != 2 {
+	return decidedSuccEnv(b, pred, nil)
+}
+
+// penv: along one explored path, which incoming edge delivered each phi that some branch
+// looks at (bound when the path enters the phi's block; a phi's value at a later use is the
+// one of the last entry into its block, which is what the path remembers). Immutable: bind
+// returns a new environment.
+type penv struct {
+	m   map[*ssa.Phi]int
+	key string
+}
+
+func (e *penv) get(ph *ssa.Phi) (int, bool) {
+	if e == nil {
+		return 0, false
+	}
+	i, ok := e.m[ph]
+	return i, ok
+}
+
+var branchPhiCache = map[*ssa.Function]map[*ssa.Phi]bool{}
+
+// branchPhis: the phis of fn that a branch condition tests (directly, negated, compared with
+// nil or with a constant).
+func branchPhis(fn *ssa.Function) map[*ssa.Phi]bool {
+	if m, ok := branchPhiCache[fn]; ok {
+		return m
+	}
+	m := map[*ssa.Phi]bool{}
+	for _, b := range fn.Blocks {
+		if len(b.Instrs) == 0 {
+			continue
+		}
+		if ret, ok := b.Instrs[len(b.Instrs)-1].(*ssa.Return); ok {
+			// returned values too: whether a returned error is nil is asked per path
+			for _, res := range ret.Results {
+				if ph, ok := resolveLocal(res).(*ssa.Phi); ok {
+					m[ph] = true
+				}
+			}
+			continue
+		}
+		ifi, ok := b.Instrs[len(b.Instrs)-1].(*ssa.If)
+		if !ok {
+			continue
+		}
+		cond := ifi.Cond
+		for {
+			if u, ok := cond.(*ssa.UnOp); ok && u.Op == token.NOT {
+				cond = u.X
+				continue
+			}
+			break
+		}
+		if ph, ok := cond.(*ssa.Phi); ok {
+			m[ph] = true
+		}
+		if bo, ok := cond.(*ssa.BinOp); ok {
+			for _, op := range []ssa.Value{bo.X, bo.Y} {
+				if ph, ok := resolveLocal(op).(*ssa.Phi); ok {
+					m[ph] = true
+				}
+			}
+		}
+	}
+	branchPhiCache[fn] = m
+	return m
+}
+
+// enter: the environment after the path goes from pred into b.
+func (e *penv) enter(b, pred *ssa.BasicBlock) *penv {
+	if pred == nil {
+		return e
+	}
+	idx := -1
+	for i, p := range b.Preds {
+		if p == pred {
+			if idx >= 0 {
+				return e
+			}
+			idx = i
+		}
+	}
+	if idx < 0 {
+		return e
+	}
+	bp := branchPhis(b.Parent())
+	var out *penv
+	for _, in := range b.Instrs {
+		ph, ok := in.(*ssa.Phi)
+		if !ok {
+			break
+		}
+		if !bp[ph] {
+			continue
+		}
+		if out == nil {
+			out = &penv{m: map[*ssa.Phi]int{}}
+			if e != nil {
+				for k, v := range e.m {
+					out.m[k] = v
+				}
+			}
+		}
+		out.m[ph] = idx
+	}
+	if out == nil {
+		return e
+	}
+	var ks []string
+	for k, v := range out.m {
+		ks = append(ks, fmt.Sprintf("%s@%d:%d", k.Name(), k.Block().Index, v))
+	}
+	sort.Strings(ks)
+	out.key = strings.Join(ks, ",")
+	return out
+}
+
+func (e *penv) String() string {
+	if e == nil {
+		return ""
+	}
+	return e.key
+}
+
+// decidedSuccEnv: like decidedSucc, also for branches on phis of earlier blocks that the
+// path has bound.
+func decidedSuccEnv(b, pred *ssa.BasicBlock, env *penv) (*ssa.BasicBlock, bool) {
+	if len(b.Succs) != 2 {
 		return nil, false
 	}
 	ifi, ok := b.Instrs[len(b.Instrs)-1].(*ssa.If)
@@ -484,15 +633,26 @@ func decidedSucc(b, pred *ssa.BasicBlock) (*ssa.BasicBlock, bool) {
 	}
 	idx := -1
 	for i, p := range b.Preds {
-		if p == pred {
+		if p == pred && pred != nil {
 			if idx >= 0 {
-				return nil, false // two edges from the same block
+				idx = -2 // two edges from the same block
+				break
 			}
 			idx = i
 		}
 	}
-	if idx < 0 {
-		return nil, false
+	// edgeOf: the incoming edge index of ph on this path, and the block it came from
+	edgeOf := func(ph *ssa.Phi) (int, *ssa.BasicBlock, bool) {
+		if ph.Block() == b {
+			if idx >= 0 {
+				return idx, pred, true
+			}
+			return 0, nil, false
+		}
+		if i, ok := env.get(ph); ok && i < len(ph.Block().Preds) {
+			return i, ph.Block().Preds[i], true
+		}
+		return 0, nil, false
 	}
 	cond, pol := ifi.Cond, true
 	for {
@@ -508,20 +668,37 @@ func decidedSucc(b, pred *ssa.BasicBlock) (*ssa.BasicBlock, bool) {
 		}
 		return b.Succs[1], true
 	}
-	if ph, ok := cond.(*ssa.Phi); ok && ph.Block() == b {
-		if cb, isC := constBool(ph.Edges[idx]); isC {
-			return pick(cb)
+	if ph, ok := cond.(*ssa.Phi); ok {
+		if i, _, bound := edgeOf(ph); bound {
+			if cb, isC := constBool(ph.Edges[i]); isC {
+				return pick(cb)
+			}
 		}
 		return nil, false
 	}
 	if x, neq, ok := nilCompare(cond); ok {
-		if ph, ok := resolveLocal(x).(*ssa.Phi); ok && ph.Block() == b {
-			e := ph.Edges[idx]
-			switch {
-			case isNilConst(e):
-				return pick(!neq)
-			case provablyNonNilErr(e, pred, 0):
-				return pick(neq)
+		if ph, ok := resolveLocal(x).(*ssa.Phi); ok {
+			if i, from, bound := edgeOf(ph); bound {
+				e := ph.Edges[i]
+				// an edge that itself carries a bound phi (the error of an inner inlined helper
+				// handed on by an outer one)
+				for d := 0; d < 4; d++ {
+					ph2, isPhi := resolveLocal(e).(*ssa.Phi)
+					if !isPhi {
+						break
+					}
+					i2, from2, bound2 := edgeOf(ph2)
+					if !bound2 {
+						break
+					}
+					e, from = ph2.Edges[i2], from2
+				}
+				switch {
+				case isNilConst(e):
+					return pick(!neq)
+				case provablyNonNilErr(e, from, 0):
+					return pick(neq)
+				}
 			}
 		}
 	}
@@ -539,8 +716,12 @@ func decidedSucc(b, pred *ssa.BasicBlock) (*ssa.BasicBlock, bool) {
 			other, _ = bo.X.(*ssa.Const)
 			swapped = true
 		}
-		if ph != nil && other != nil && ph.Block() == b && other.Value != nil {
-			if ec, isC := ph.Edges[idx].(*ssa.Const); isC && ec.Value != nil && ec.Value.Kind() == other.Value.Kind() && ec.Value.Kind() != constant.Unknown {
+		pi, _, pbound := 0, (*ssa.BasicBlock)(nil), false
+		if ph != nil {
+			pi, _, pbound = edgeOf(ph)
+		}
+		if ph != nil && other != nil && pbound && other.Value != nil {
+			if ec, isC := ph.Edges[pi].(*ssa.Const); isC && ec.Value != nil && ec.Value.Kind() == other.Value.Kind() && ec.Value.Kind() != constant.Unknown {
 				switch bo.Op {
 				case token.EQL, token.NEQ, token.LSS, token.LEQ, token.GTR, token.GEQ:
 					l, r := ec.Value, other.Value
@@ -566,20 +747,26 @@ func (q *pathQuery) run(startBlock *ssa.BasicBlock, startIdx int, deferred bool)
 		idx      int
 		deferred bool
 		pred     *ssa.BasicBlock
+		env      *penv
 	}
-	work := []item{{startBlock, startIdx, deferred, nil}}
+	work := []item{{startBlock, startIdx, deferred, nil, nil}}
 	for len(work) > 0 {
 		it := work[len(work)-1]
 		work = work[:len(work)-1]
 		if it.idx == 0 {
-			st := pqState{it.b, it.deferred, it.pred}
+			st := pqState{it.b, it.deferred, it.pred, it.env.String()}
 			if seen[st] {
 				continue
 			}
 			seen[st] = true
+			if len(seen) > 200000 {
+				bad = append(bad, pathEnd{it.b.Instrs[0], "path exploration too large"})
+				return bad
+			}
 		}
 		stopped := false
 		d := it.deferred
+		q.cur = it.env
 		for k := it.idx; k < len(it.b.Instrs); k++ {
 			in := it.b.Instrs[k]
 			if q.deferWitness != nil && q.deferWitness(in) {
@@ -600,7 +787,7 @@ func (q *pathQuery) run(startBlock *ssa.BasicBlock, startIdx int, deferred bool)
 		if stopped {
 			continue
 		}
-		only, decided := decidedSucc(it.b, it.pred)
+		only, decided := decidedSuccEnv(it.b, it.pred, it.env)
 		for _, s := range it.b.Succs {
 			if decided && s != only {
 				continue
@@ -608,7 +795,7 @@ func (q *pathQuery) run(startBlock *ssa.BasicBlock, startIdx int, deferred bool)
 			if q.blockEdge != nil && !q.blockEdge(it.b, s) {
 				continue
 			}
-			work = append(work, item{s, 0, d, it.b})
+			work = append(work, item{s, 0, d, it.b, it.env.enter(s, it.b)})
 		}
 	}
 	return bad
@@ -1048,16 +1235,24 @@ func reachesBlock(from, pred, target *ssa.BasicBlock) bool {
 
 // reachesBlockAvoiding additionally never follows an edge for which avoid returns true.
 func reachesBlockAvoiding(from, pred, target *ssa.BasicBlock, avoid func(from, to *ssa.BasicBlock) bool) bool {
-	type st struct{ b, p *ssa.BasicBlock }
-	seen := map[st]bool{}
-	work := []st{{from, pred}}
+	type st struct {
+		b, p *ssa.BasicBlock
+		env  *penv
+	}
+	type key struct {
+		b, p *ssa.BasicBlock
+		env  string
+	}
+	seen := map[key]bool{}
+	work := []st{{from, pred, nil}}
 	for len(work) > 0 {
 		x := work[len(work)-1]
 		work = work[:len(work)-1]
-		if seen[x] {
+		k := key{x.b, x.p, x.env.String()}
+		if seen[k] || len(seen) > 200000 {
 			continue
 		}
-		seen[x] = true
+		seen[k] = true
 		if x.b == target {
 			return true
 		}
@@ -1070,7 +1265,7 @@ func reachesBlockAvoiding(from, pred, target *ssa.BasicBlock, avoid func(from, t
 		if exits {
 			continue
 		}
-		only, decided := decidedSucc(x.b, x.p)
+		only, decided := decidedSuccEnv(x.b, x.p, x.env)
 		for _, s := range x.b.Succs {
 			if decided && s != only {
 				continue
@@ -1078,7 +1273,7 @@ func reachesBlockAvoiding(from, pred, target *ssa.BasicBlock, avoid func(from, t
 			if avoid != nil && avoid(x.b, s) {
 				continue
 			}
-			work = append(work, st{s, x.b})
+			work = append(work, st{s, x.b, x.env.enter(s, x.b)})
 		}
 	}
 	return false
@@ -1143,4 +1338,39 @@ func sourcesAt(v ssa.Value, at *ssa.BasicBlock) []valueSource {
 	}
 	walk(v, at, 0)
 	return out
+}
+
+
+// everyIteration: every completed iteration of loop l passes through block blk - decided on
+// feasible paths (branches that the path's own phi bindings decide are not followed the other
+// way), so the landing pads of an inlined helper's error returns, which leave the loop, do
+// not count as ways round blk.
+func (l *Loop) everyIteration(blk *ssa.BasicBlock) bool {
+	dominatesAll := true
+	for _, lt := range l.Latch {
+		if !blk.Dominates(lt) {
+			dominatesAll = false
+		}
+	}
+	if dominatesAll {
+		return true
+	}
+	if !l.Body[blk] && blk != l.Header {
+		return false
+	}
+	avoid := func(from, to *ssa.BasicBlock) bool { return to == blk || !l.Body[to] && to != l.Header }
+	for _, sc := range l.Header.Succs {
+		if !l.Body[sc] && sc != l.Header {
+			continue
+		}
+		if sc == blk {
+			continue
+		}
+		// back to the header = the iteration completed (reaching a latch block is not enough:
+		// the branch at its end may be decided towards the loop exit on this path)
+		if reachesBlockAvoiding(sc, l.Header, l.Header, avoid) {
+			return false
+		}
+	}
+	return true
 }
